@@ -14,7 +14,10 @@ VARIABLES l, seen
 tvars == <<cvars, l, seen>>
 
 E == Rec[l]
-IsEvent(k) == l <= Len(Rec) /\ Rec[l].k = k /\ l' = l + 1 /\ TLCSet(7, l + 1)
+\* the next recorded event is of kind k / it is consumed (register 7: first event not yet matched;
+\* only advanced once every guard of the action holds, so that it names the rejected event)
+At(k) == l <= Len(Rec) /\ Rec[l].k = k
+Step == l' = l + 1 /\ TLCSet(7, l + 1)
 Finished == sock = "closed"
 \* what the handler gets to see (batches / chunks merged)
 Handed == Norm(handed)
@@ -27,7 +30,7 @@ TInit == /\ stream = <<>> /\ avail = 0 /\ pos = 0 /\ buf = 0 /\ pre = 0 /\ pend 
          /\ proc = 0 /\ handed = <<>> /\ sock = "closed"
          /\ l = 1 /\ seen = 0 /\ TLCSet(7, 1)
 
-TReset == /\ IsEvent("Reset") /\ Finished
+TReset == /\ At("Reset") /\ Finished /\ Step
           /\ stream' = E.frames /\ avail' = Total(E.frames)
           /\ pos' = 0 /\ buf' = 0 /\ pre' = 0 /\ pend' = 0 /\ nl' = 0
           /\ st' = NoneSt /\ pc' = "call" /\ want' = -1 /\ out' = <<>> /\ halted' = FALSE /\ done' = FALSE
@@ -38,20 +41,22 @@ TReset == /\ IsEvent("Reset") /\ Finished
 \* the reader loop of CodecConn.tla, unlogged
 TRun == ~Finished /\ CNext /\ UNCHANGED <<l, seen>>
 
-TDeliver == /\ Finished /\ IsEvent("Deliver")
+TDeliver == /\ Finished /\ At("Deliver")
             /\ seen < Len(Handed)
             /\ LET x == Handed[seen + 1] IN
                /\ E.r = x.r /\ E.t = x.t /\ E.n = x.n /\ E.rem = x.rem
                /\ E.ok /\ x.ok
+            /\ Step
             /\ seen' = seen + 1
             /\ UNCHANGED cvars
 
 \* the loop ended (end of stream or refusal) after handing over everything, attachments on disk;
 \* after a refusal the reader itself closed the socket while the peer's side was still open
-TClosed == /\ Finished /\ IsEvent("Closed")
+TClosed == /\ Finished /\ At("Closed")
            /\ seen = Len(Handed)
            /\ E.closed /\ E.files_ok
            /\ Refused => E.before_eof
+           /\ Step
            /\ UNCHANGED <<cvars, seen>>
 
 TNext == TReset \/ TRun \/ TDeliver \/ TClosed
